@@ -11,7 +11,8 @@
 //   C15_FOLLOWUP=1    re-entrant completion callbacks: one that issues a follow-up lookup, one that cancels another
 //                     lookup that is still pending (never itself); 5-tick advances
 //   C15_CONFIG=1      DnsRequest(loop) + setDnsIPAddresses(); op setServers(k), k in 0..2, also while lookups are pending
-//   C15_IDWRAP=1      (off by default, see check.py) the id counter starts at 0xFFFD so that the 16-bit id wraps
+//   C15_IDWRAP=1      (off by default, see check.py) the id counter starts at 0xFFFD so that the 16-bit id wraps; op burst = 65536
+//                     further lookups that are cancelled at once (walks the id counter once around)
 #include "hist/hist.h"
 #include "common.h"
 #include <tbox/event/common_loop.h>
@@ -39,7 +40,7 @@ extern "C" int epoll_wait(int epfd, struct epoll_event *ev, int maxev, int) { re
 extern "C" int select(int nfds, fd_set *r, fd_set *w, fd_set *e, struct timeval *) { struct timeval z = {0, 0}; return (int)syscall(SYS_select, nfds, r, w, e, &z); }
 
 using network::DnsRequest;
-enum K { REQ, CANCEL, REPLY, TICK, SETSRV };
+enum K { REQ, CANCEL, REPLY, TICK, SETSRV, BURST };
 // TRUNCATED / PTR_LOOP: replies with the lookup's id that cannot be decoded - they must be ignored AND leave the lookup intact
 // (it still completes with the next acceptable reply / the all-failed status / the timeout). RX_EMPTY / RX_FAIL: socket lane only.
 enum RK { OK, SERVFAIL, NXDOMAIN, FORMERR, QUERY, UNKNOWN_ID, OK_WRONG_QUESTION, TRUNCATED, PTR_LOOP, NRK, RX_EMPTY = NRK, RX_FAIL };
@@ -80,6 +81,7 @@ int main(int argc, char **argv) {
     switch (o.k) { case REQ: snprintf(b, sizeof b, o.r == 1 ? "request(%s,callback-issues-a-followup-lookup)" : o.r == 2 ? "request(%s,callback-cancels-another-pending-lookup)" : "request(%s)", kDomains[o.i]); break; case CANCEL: snprintf(b, sizeof b, "cancel(#%d)", o.i); break;
       case REPLY: if (o.r == UNKNOWN_ID) snprintf(b, sizeof b, "reply(unknown-id,from-s%d)", o.s); else if (o.r >= NRK) snprintf(b, sizeof b, "socket-readable(%s)", rkN[o.r]); else snprintf(b, sizeof b, "reply(#%d,from-s%d,%s)", o.i, o.s, rkN[o.r]); break;
       case SETSRV: snprintf(b, sizeof b, "setServers(%d)", o.i); break;
+      case BURST: snprintf(b, sizeof b, "burst(65536 x {request(c.d); cancel(it)})"); break;
       default: snprintf(b, sizeof b, "tick(+%ds)", o.i > 0 ? o.i : 1); }
     return std::string(b); };
   ex.menu = [&](const std::vector<Op> &h) {
@@ -94,6 +96,7 @@ int main(int argc, char **argv) {
       // replies come from servers that were queried (whether a reply from an address never queried is acceptable is not defined by the statement)
       for (int s = 0; s < nq[i]; s++) for (int r = 0; r < NRK; r++) if (r != UNKNOWN_ID) m.push_back({REPLY, i, s, r}); }
     m.push_back({REPLY, 0, 0, UNKNOWN_ID});
+    if (idwrap) { bool had = false; for (auto &o : h) had = had || o.k == BURST; if (!had) m.push_back({BURST, 0, 0, 0}); }
     if (via_socket) { m.push_back({REPLY, 0, 0, RX_EMPTY}); m.push_back({REPLY, 0, 0, RX_FAIL}); }
     return m; };
   ex.run = [&](const std::vector<Op> &h, std::string &viol) {
@@ -156,6 +159,11 @@ int main(int argc, char **argv) {
         case CANCEL: { Look &l = L[o.i]; bool r = dns->cancel(l.id); bool want = l.state == 0;
           if (r != want) fail(std::string("dns-lookup-cancel-returned-") + (r ? "true-for-finished-lookup" : "false-for-pending-lookup"));
           if (l.state == 0) l.state = 2; } break;
+        case BURST: {   // 65536 further lookups, each cancelled at once: none of them is ever reported, the lookups that were pending stay untouched
+          g_keep_sent = false; long bad = 0;
+          for (long n = 0; n < 65536; n++) { uint16_t id = dns->request(network::DomainName(kDomains[1]), [&fail](const DnsRequest::Result &) { fail("dns-lookup-callback-invoked-after-cancel (burst lookup)"); }); if (!dns->cancel(id)) bad++; }
+          g_keep_sent = true; if (bad) fail("dns-lookup-cancel-returned-false-for-pending-lookup (" + std::to_string(bad) + " lookups of the burst)");
+        } break;
         case SETSRV: { DnsRequest::IPAddressVec v(srv.begin(), srv.begin() + o.i); dns->setDnsIPAddresses(v); cur = o.i; } break;
         case REPLY: { bool unk = o.r == UNKNOWN_ID || o.r >= NRK; int i = unk ? -1 : o.i;
           Bytes dg = unk ? make_reply(0, 0, 0, o.s, UNKNOWN_ID) : make_reply(L[i].id, L[i].dom, i, o.s, o.r);
